@@ -126,7 +126,12 @@ type BytesV struct {
 	json *JNode
 	str  *StrV
 	nilb bool
+	n    *Term // length of a JSON frame on the wire (symbolic), when it matters
 }
+
+// AbufV is a non-nil byte slice of symbolic length whose contents are not observed
+// (I/O buffers in the size/budget lemmas).
+type AbufV struct{ n *Term }
 
 type MapEntry struct {
 	k, v Value
